@@ -152,24 +152,47 @@ Qed.
 
 (* ------------------------------------------------------------------------------------------ CTI *)
 
-(** D17.  CTI(2) on two values of magnitude < 1000 with at most three decimals exceeds 1 by 3.4e-4
-    (an ulp of 1 is 2.2e-16): [n*sxx - sx^2] cancels catastrophically. *)
-Theorem cti_range_f64_refuted :
-  exists (xs : list float) (v : float),
-    length xs = 2%nat /\ sall_absleb 1000 xs = true /\
-    cout (@cti_core float FOps 2) xs = Ok (Some v) /\ PrimFloat.ltb (1 + 1e-4) v = true.
+(** D17 (repaired in the code).  The old code reported a raw quotient which rounding could push outside
+    [-1, 1]: CTI(2) on 872.06, 872.061 gave 1.00034..., CTI(3) on 978.4, 978.41, 978.42 gave 1.0000024...
+    ([n*sxx - sx^2] cancels catastrophically).  The output is now clamped ([out.max(-1).min(1)]), so at
+    binary64 -- whatever the rounding did to the quotient, even if it is an infinity or NaN -- every value
+    CTI reports lies in [-1, 1] (in particular it is never NaN: IEEE [max(NaN, -1) = -1]). *)
+Lemma clamp_float_range (o : float) :
+  let v := @smin float FOps (@smax float FOps o (@sneg float FOps (@s1 float FOps))) (@s1 float FOps) in
+  PrimFloat.leb (-1) v && PrimFloat.leb v 1 = true.
 Proof.
-  exists [872.06; 872.061], 1.0003456177901171. vm_compute. repeat split.
+  unfold smin, smax, sgeb. cbn [sleb sneg s1 FOps].
+  change (PrimFloat.opp PrimFloat.one) with (-1)%float. change PrimFloat.one with 1%float.
+  destruct (PrimFloat.leb (-1) o) eqn:E1.
+  - destruct (PrimFloat.leb o 1) eqn:E2; cbv zeta.
+    + rewrite E1, E2. reflexivity.
+    + vm_compute. reflexivity.
+  - vm_compute. reflexivity.
 Qed.
 
-(** the same with a full window of three values rising linearly (exact CTI = 1): 2.4e-6 above 1 *)
-Theorem cti3_range_f64_refuted :
-  exists (xs : list float) (v : float),
-    length xs = 3%nat /\ sall_absleb 1000 xs = true /\
-    cout (@cti_core float FOps 3) xs = Ok (Some v) /\ PrimFloat.ltb (1 + 1e-6) v = true.
+Lemma cti_last_range_f64 n q v : @cti_last float FOps n q = Ok (Some v) ->
+  PrimFloat.leb (-1) v && PrimFloat.leb v 1 = true.
 Proof.
-  exists [978.4; 978.41; 978.42], 1.000002401570642. vm_compute. repeat split.
+  unfold cti_last. cbv zeta.
+  generalize (@cti_loop float FOps q 0 {| c_sx := s0; c_sy := s0; c_sxx := s0; c_sxy := s0; c_syy := s0 |}).
+  intros a. destruct (_ && _).
+  - cbn [ssqrt sdiv FOps bind]. intros H. inversion H. apply clamp_float_range.
+  - intros H. inversion H. vm_compute. reflexivity.
 Qed.
+
+(** C07 at f64: every value CorrelationTrendIndicator reports at binary64 is in [-1, 1] *)
+Theorem cti_range_f64 n (fs : list float) (v : float) :
+  cout (@cti_core float FOps n) fs = Ok (Some v) -> PrimFloat.leb (-1) v && PrimFloat.leb v 1 = true.
+Proof.
+  unfold cout. destruct (crun (@cti_core float FOps n) fs) as [s|e]; cbn [bind]; [|discriminate].
+  cbn [clast cti_core]. apply cti_last_range_f64.
+Qed.
+
+(** the two streams on which the old code left the range: now exactly 1 *)
+Example cti_range_f64_ex :
+  cout (@cti_core float FOps 2) [872.06; 872.061] = Ok (Some 1) /\
+  cout (@cti_core float FOps 3) [978.4; 978.41; 978.42] = Ok (Some 1).
+Proof. vm_compute. split; reflexivity. Qed.
 
 (* --------------------------------------------------------------------------- Vsct, Vst (Welford) *)
 
@@ -255,8 +278,7 @@ Print Assumptions myrsi_flat_f64_stuck.
 Print Assumptions myrsi_flat_exact.
 Print Assumptions myrsi_range_f64_refuted.
 Print Assumptions myrsi_flat_f64_refuted_sign.
-Print Assumptions cti_range_f64_refuted.
-Print Assumptions cti3_range_f64_refuted.
+Print Assumptions cti_range_f64.
 Print Assumptions vsct_bound_f64_refuted.
 Print Assumptions vsct_flat_f64_refuted.
 Print Assumptions vsct_flat_f64_stuck.
